@@ -9,7 +9,8 @@ EVERY assignment
               bad-block (v3 share, one block byte damaged: visible only to verify=True),
               [2-of-3: signature-field (v3 share, the signature bytes damaged, prefix intact);
                thorough: bad-privkey (v3 share, encrypted private key damaged)] }
-is written to real servers, then   check(verify in {F,T})  ->  repair(force in {F,T})   or
+is written to real servers (2-of-3 also with a SECOND copy of share 0, in any of the four versions, on
+a fourth server: more share instances than N), then   check(verify in {F,T})  ->  repair(force in {F,T})   or
 check_and_repair(verify) is run on a node built from the write-cap (thorough: check also under
 every schedule with <= 1 deviation).
 Oracle from ground truth (independent parser of the files on disk):
@@ -34,7 +35,7 @@ from allmydata.monitor import Monitor
 
 LEVEL = "fault_enumeration"
 ASSUMPTIONS = [
-    "k = 2; N = S in {3, 4}, one share per server (so every slot is a distinct share number); files of 25-29 bytes (MDMF: 3 segments of 12 bytes)",
+    "k = 2; N = S in {3, 4}, one share per server (so every slot is a distinct share number), plus 2-of-3 on 4 servers with a duplicate of share 0; files of 25-29 bytes (MDMF: 3 segments of 12 bytes)",
     "'competing versions with the same sequence number' is judged for recoverable competitors (an unrecoverable same-seqnum fragment cannot be picked; those repairs are counted, not judged)",
     "which error a refused repair raises is not judged; servers are honest and available (unavailable servers: C11)",
 ]
@@ -44,14 +45,15 @@ HIDDEN = ("badblock", "badprivkey", "short")
 _PREP = {}
 
 
-def prepare(fmt, n, seed):
-    key = (fmt, n, seed)
+def prepare(fmt, n, seed, S=None):
+    S = S or n
+    key = (fmt, n, seed, S)
     if key in _PREP:
         return _PREP[key]
     boot.urandom.reset(seed, b"c14-prep")
     cs = {j: pattern(10 * seed + j, 24 + j) for j in (1, 2, 3, 4)}
     cs["3x"] = pattern(10 * seed + 8, 26)
-    g = grid.Grid(n, client_kw=dict(k=K, n=n, happy=1))
+    g = grid.Grid(S, client_kw=dict(k=K, n=n, happy=1))
     snaps = {}
     try:
         b = lib_mut.create(g, fmt, cs[1])
@@ -67,7 +69,7 @@ def prepare(fmt, n, seed):
     finally:
         g.close()
     boot.urandom.reset(seed, b"c14-prep-competitor")
-    g = grid.Grid(n, client_kw=dict(k=K, n=n, happy=1), restore=snaps[2])
+    g = grid.Grid(S, client_kw=dict(k=K, n=n, happy=1), restore=snaps[2])
     try:
         node = g.clients[0].create_node_from_uri(cap_w)
         b = g.wait(node.overwrite(MutableData(cs["3x"])))
@@ -87,7 +89,8 @@ def prepare(fmt, n, seed):
         assert all(slots[name][sh][0] == server[sh] for sh in range(n))
     vid = {name: ms.version_id(ms.share_data(slots[name][0][1])) for name in slots}
     assert vid["v2"][0] == 2 and vid["v3"][0] == 3 and vid["v4"][0] == 4 and vid["v3x"][0] == 3 and vid["v3x"] != vid["v3"], vid
-    out = {"si": si, "cap_w": cap_w, "cap_r": cap_r, "server": server, "vid": vid,
+    spare = [sv for sv in range(S) if sv not in server.values()]
+    out = {"si": si, "cap_w": cap_w, "cap_r": cap_r, "server": server, "vid": vid, "spare": spare,
            "blob": {name: {sh: slots[name][sh][1] for sh in range(n)} for name in slots},
            "content": {vid["v2"]: cs[2], vid["v3"]: cs[3], vid["v4"]: cs[4], vid["v3x"]: cs["3x"]}}
     _PREP[key] = out
@@ -120,17 +123,17 @@ def build(prep, sh, state):
     return ms.container(blob, d)
 
 
-def truth(prep, assign, verify):
+def truth(prep, assign, verify, extra=None):
     """A share whose signature FIELD is damaged while its signed prefix equals that of a sibling with
     a good signature is accepted or rejected by the servermap depending on which answer arrives
     first (signatures are verified once per version); the statement is silent about it, so both
     readings are computed and only what they agree on is judged."""
     if "sigfield" not in assign:
-        t = _truth1(prep, assign, verify)
+        t = _truth1(prep, assign, verify, extra)
         t["bests"] = [t["best"]]
         return t
-    a = _truth1(prep, ["v3" if s == "sigfield" else s for s in assign], verify)
-    b = _truth1(prep, ["badsig" if s == "sigfield" else s for s in assign], verify)
+    a = _truth1(prep, ["v3" if s == "sigfield" else s for s in assign], verify, extra)
+    b = _truth1(prep, ["badsig" if s == "sigfield" else s for s in assign], verify, extra)
     out = dict(a)
     out["judged_healthy"] = a["judged_healthy"] and b["judged_healthy"] and a["healthy"] == b["healthy"]
     out["judged_recoverable"] = a["judged_recoverable"] and b["judged_recoverable"] and a["recoverable"] == b["recoverable"]
@@ -141,7 +144,7 @@ def truth(prep, assign, verify):
     return out
 
 
-def _truth1(prep, assign, verify):
+def _truth1(prep, assign, verify, extra=None):
     """what a checker can know.  returns dict(versions {vid: set(shnum)}, best, healthy, recoverable,
     must_refuse, judged_healthy, judged_recoverable)"""
     n = len(assign)
@@ -153,6 +156,11 @@ def _truth1(prep, assign, verify):
         vers1.setdefault(v, set()).add(sh)
         if st in HIDDEN:
             hidden.setdefault(v, set()).add(sh)
+    if extra:
+        # a second copy of share 0, in this version, on a server of its own
+        vers1.setdefault(prep["vid"][extra], set()).add(0)
+        if hidden.get(prep["vid"][extra]):
+            hidden[prep["vid"][extra]].discard(0)
 
     def summarise(vers):
         rec = sorted(v for v, shs in vers.items() if len(shs) >= K)
@@ -203,17 +211,21 @@ def execute(case, prefix, seed):
 
 def _execute(case, prefix, seed):
     fmt, n, assign, verify, mode = case["fmt"], case["n"], case["assign"], case["verify"], case["mode"]
-    prep = prepare(fmt, n, seed)
+    S = case.get("S") or n
+    extra = case.get("extra")
+    prep = prepare(fmt, n, seed, S)
     si = prep["si"]
     ch = grid.Chooser(prefix)
     boot.urandom.reset(seed, b"c14-exec")
-    g = grid.Grid(n, nclients=2, chooser=ch, client_kw=dict(k=K, n=n, happy=1))
+    g = grid.Grid(S, nclients=2, chooser=ch, client_kw=dict(k=K, n=n, happy=1))
     viol, obs = [], {}
     try:
         for sh, st in enumerate(assign):
             ms.write_share(g, si, prep["server"][sh], sh, build(prep, sh, st))
-        t = truth(prep, assign, verify)
-        desc = "%s 2-of-%d slots=%r verify=%r %s%s" % (fmt, n, assign, verify, mode, " (CPU-pool results delivered in a later reactor turn, as in production)" if case.get("cpu") == "async" else "")
+        if extra:
+            ms.write_share(g, si, prep["spare"][0], 0, ms.container(prep["blob"][extra][0], ms.share_data(prep["blob"][extra][0])))
+        t = truth(prep, assign, verify, extra)
+        desc = "%s 2-of-%d slots=%r%s verify=%r %s%s" % (fmt, n, assign, " + a second copy of share 0 in state %s on a %dth server" % (extra, S) if extra else "", verify, mode, " (CPU-pool results delivered in a later reactor turn, as in production)" if case.get("cpu") == "async" else "")
         v3_is_best = bool(t["bests"]) and all(b == prep["vid"]["v3"] for b in t["bests"])
         best_hidden = sorted(sh for sh, st in enumerate(assign) if st in HIDDEN and st != "badprivkey") if v3_is_best else []
         node = g.clients[0].create_node_from_uri(prep["cap_w"])
@@ -361,12 +373,16 @@ def chunk(cases, seed, d_bound):
     return res
 
 
-def cases_for(fmt, n, states, modes, verifies=(False, True), cpu="sync"):
+def cases_for(fmt, n, states, modes, verifies=(False, True), cpu="sync", extras=(None,)):
     out = []
     for combo in itertools.product(states, repeat=n):
-        for verify in verifies:
-            for mode in modes:
-                out.append({"fmt": fmt, "n": n, "assign": list(combo), "verify": verify, "mode": mode, "cpu": cpu})
+        for extra in extras:
+            for verify in verifies:
+                for mode in modes:
+                    c = {"fmt": fmt, "n": n, "assign": list(combo), "verify": verify, "mode": mode, "cpu": cpu}
+                    if extra:
+                        c.update(extra=extra, S=n + 1)
+                    out.append(c)
     return out
 
 
@@ -380,12 +396,13 @@ def run(tier, seed):
     desc = []
     if tier == "quick":
         plan = [("SDMF", 3, STATES + ["sigfield", "short"], ("noforce", "force", "car"), 0), ("MDMF", 3, STATES, ("noforce", "force"), 0),
-                ("SDMF", 3, STATES + ["short"], ("noforce@async",), 0),
+                ("SDMF", 3, STATES + ["short"], ("noforce@async",), 0), ("SDMF", 3, ["v3", "v2", "v3x", "v4", "missing", "badblock"], ("noforce+extra", "force+extra"), 0),
                 ("SDMF", 4, [s for s in STATES if s != "badsig"], ("noforce",), 0), ("MDMF", 4, ["v3", "v2", "v3x", "v4", "missing"], ("force",), 0)]
     else:
         plan = [(f, 3, STATES + ["sigfield", "short", "badprivkey"], ("noforce", "force", "car"), 1) for f in ("SDMF", "MDMF")]
         plan += [(f, 3, STATES + ["short", "badprivkey"], ("noforce@async", "car@async"), 0) for f in ("SDMF", "MDMF")]
         plan += [(f, 4, STATES, ("noforce", "force", "car"), 0) for f in ("SDMF", "MDMF")]
+        plan += [(f, 3, STATES, ("noforce+extra", "force+extra", "car+extra"), 0) for f in ("SDMF", "MDMF")]
     for d in sorted(set(p[4] for p in plan)):
         cases = []
         for (fmt, n, states, modes, dd) in plan:
@@ -394,6 +411,9 @@ def run(tier, seed):
             prepare(fmt, n, seed)
             if modes[0].endswith("@async"):
                 cs = cases_for(fmt, n, states, tuple(m.split("@")[0] for m in modes), verifies=(True,), cpu="async")
+            elif modes[0].endswith("+extra"):
+                prepare(fmt, n, seed, n + 1)
+                cs = cases_for(fmt, n, states, tuple(m.split("+")[0] for m in modes), extras=("v2", "v3", "v3x", "v4"))
             else:
                 cs = cases_for(fmt, n, states, modes)
             # v4 on >= k slots makes v4 the best version: kept (the oracle is general), nothing excluded
